@@ -334,10 +334,19 @@ def disturb_encoder(rnd, k=2):
     not reach the next frame."""
     from pamqp import body, commands, frame, header
     for _ in range(k):
-        r = rnd.randrange(7)
+        r = rnd.randrange(10)
         try:
             if r == 0:
                 obj, ch = body.ContentBody('a str, not bytes'), 1
+            elif r == 7:
+                # a buffer whose size can be asked for but that cannot be
+                # appended: fails after whatever was written before it
+                obj, ch = body.ContentBody(
+                    memoryview(b'every other byte')[::2]), 1
+            elif r == 8:
+                obj, ch = body.ContentBody(['a', 'list']), 1
+            elif r == 9:
+                obj, ch = body.ContentBody(b'ok'), 1.5
             elif r == 1:
                 obj, ch = body.ContentBody(b'ok'), rnd.choice([70000, -1])
             elif r == 2:
